@@ -1015,11 +1015,21 @@ def build_fortran_definition(
         # Mark numeric literals as double precision, to denote the same
         # numbers as in Python: a bare `0.1` is a single-precision constant
         # in Fortran, `1 / 2` is integer division and `max(2, x)` does not
-        # compile (leave the array subscripts alone)
+        # compile (leave the array subscripts alone). An integer exponent stays
+        # an integer: `x ** 2` is defined for negative `x`, `x ** 2d0` is not
+        def mark_as_double(match: 're.Match') -> str:
+            literal = match.group(1)
+            before = re.sub(r'\s+', '', match.string[: match.start()])
+
+            if literal.isdigit() and re.search(r'\*\*\(*-?$', before):
+                return literal
+
+            return literal + 'd0'
+
         code = ''.join(
             part
             if part.startswith('solved_values(')
-            else re.sub(r'(?<![\w.])(\d+\.\d*|\.\d+|\d+)(?![\w.])', r'\1d0', part)
+            else re.sub(r'(?<![\w.])(\d+\.\d*|\.\d+|\d+)(?![\w.])', mark_as_double, part)
             for part in re.split(r'(solved_values\(.*?\))', code)
         )
 
